@@ -2266,7 +2266,11 @@ class Head(Expr):
     def _simplify_down(self):
         if isinstance(self.frame, Elemwise):
             operands = [
-                Head(op, self.n, self.npartitions) if isinstance(op, Expr) else op
+                (
+                    Head(op, self.n, self.npartitions)
+                    if isinstance(op, Expr) and not self.frame._broadcast_dep(op)
+                    else op
+                )
                 for op in self.frame.operands
             ]
             return type(self.frame)(*operands)
@@ -2371,7 +2375,11 @@ class Tail(Expr):
     def _simplify_down(self):
         if isinstance(self.frame, Elemwise):
             operands = [
-                Tail(op, self.n) if isinstance(op, Expr) else op
+                (
+                    Tail(op, self.n)
+                    if isinstance(op, Expr) and not self.frame._broadcast_dep(op)
+                    else op
+                )
                 for op in self.frame.operands
             ]
             return type(self.frame)(*operands)
